@@ -187,6 +187,7 @@ type obsHandler struct {
 }
 
 func (o *obsHandler) call(name string, f func() error) error {
+	o.l.event(o.id, "hbegin", name, nil) // the main loop has taken the message off the queue
 	err := f()
 	o.l.event(o.id, "handle", name, err)
 	return err
